@@ -86,7 +86,10 @@ def one_run(scn, check_id, seed, index):
     """All executions of one run index: [(program, desc, sched, violations, stats), ...]."""
     rs = mix(seed, check_id, index)
     grng = random.Random(rs)
-    program = scn.generate(grng)
+    if hasattr(scn, "program_for"):
+        program = scn.program_for(index, grng)
+    else:
+        program = scn.generate(grng)
     drng = random.Random(rs ^ 0x9E3779B97F4A7C15)
     return [(program,) + r for r in schedules(scn, program, drng)]
 
@@ -109,8 +112,9 @@ def _worker(args):
     }
     i = wid
     t_end = deadline
+    must = getattr(scn, "must_cover", 0)
     while (max_runs is None or i < max_runs):
-        if time.time() > t_end:
+        if time.time() > t_end and i >= must:
             break
         try:
             execs = one_run(scn, check_id, seed, i)
@@ -131,6 +135,7 @@ def _account(agg, i, program, desc, s, viol, stats, props, known):
     agg["steps"] += stats["steps"]
     agg["switches"] += stats["switches"]
     agg["simtime"] += stats["simtime"]
+    agg["cases"] = agg.get("cases", 0) + stats.get("cases", 0)
     dg = s.digest()
     agg["digests"].add(dg)
     ph = hashlib.blake2b(json.dumps(program, sort_keys=True).encode(), digest_size=8).hexdigest()
@@ -374,14 +379,14 @@ def run_check(scn_factory, scn_name, check_id, prop, tier, seed, budget_s, jobs,
             except Exception as e:  # a dead worker is a harness failure, never exit 0
                 print("HARNESS-ERROR property=%s worker failed: %r" % (prop, e))
                 return 2
-    tot = {"runs": 0, "steps": 0, "switches": 0, "simtime": 0.0, "nontrivial": 0}
+    tot = {"runs": 0, "steps": 0, "switches": 0, "simtime": 0.0, "nontrivial": 0, "cases": 0}
     digests, nt, programs, states = set(), set(), set(), set()
     faults, probes, verdicts, strategies, failures, known_hits, other = {}, {}, {}, {}, {}, {}, {}
     herr = []
     samples = []
     for a in results:
         for k in tot:
-            tot[k] += a[k]
+            tot[k] += a.get(k, 0)
         digests |= a["digests"]
         nt |= a["nt_digests"]
         programs |= a["programs"]
@@ -448,6 +453,7 @@ def run_check(scn_factory, scn_name, check_id, prop, tier, seed, budget_s, jobs,
         "distinct_schedule_digests": len(digests),
         "distinct_abstract_states": len(states),
         "scheduler_steps": tot["steps"],
+        "individual_cases_judged": tot["cases"],
         "context_switches": tot["switches"],
         "simulated_seconds": tot["simtime"],
         "runs_per_hour": int(tot["runs"] / max(search_wall, 1e-6) * 3600),
@@ -460,7 +466,8 @@ def run_check(scn_factory, scn_name, check_id, prop, tier, seed, budget_s, jobs,
         "violations_of_other_properties_seen": other,
         "components_real": real_components,
         "components_stubbed": stub_components,
-        "exhaustive": False,
+        "exhaustive": bool(getattr(scn, "must_cover", 0)) and tot["runs"] >= getattr(scn, "must_cover", 0),
+        "enumerated_cases": getattr(scn, "must_cover", 0),
         "replays": [os.path.relpath(p, HERE) for p in replay_paths],
     }
     if extra_cov:
